@@ -934,7 +934,10 @@ func (m *machine) distribute(d gen.Dest, t *big.Int) *merr {
 
 // pair matches the draw list with the distribution list unit by unit, first come first
 // served; kept shares consume draw units without producing a flow.
-func (m *machine) pair(sr *StmtResult) {
+func (m *machine) pair(sr *StmtResult) { Pair(sr) }
+
+// Pair fills sr.Flow and sr.KeptAmt from sr.Draws and sr.Dists.
+func Pair(sr *StmtResult) {
 	di := 0
 	var dleft *big.Int
 	if len(sr.Draws) > 0 {
@@ -965,4 +968,63 @@ func (m *machine) pair(sr *StmtResult) {
 			}
 		}
 	}
+}
+
+// Grants resolves, through the variable environment, which accounts the script writes with
+// `allowing unbounded overdraft` and the largest bounded overdraft it grants each
+// (account, asset). ok is false when some address / amount cannot be evaluated.
+func Grants(p *gen.Program, in Inputs) (unbounded map[string]bool, grants map[[2]string]*big.Int, ok bool) {
+	m := &machine{in: in, vars: map[string]Value{}, V: cloneBal(in.Bal),
+		res: &Result{TxMeta: map[string]Value{}, AcctMeta: map[string]map[string]string{}}}
+	unbounded = map[string]bool{}
+	grants = map[[2]string]*big.Int{}
+	if e := m.declare(p); e != nil {
+		return nil, nil, false
+	}
+	ok = true
+	var walk func(s gen.Source)
+	walk = func(s gen.Source) {
+		switch s := s.(type) {
+		case *gen.SrcOverdraft:
+			a, e := m.evalAcct(s.Addr)
+			if e != nil {
+				ok = false
+				return
+			}
+			if s.Bounded == nil {
+				unbounded[a] = true
+				return
+			}
+			v, e := m.eval(s.Bounded)
+			if e != nil {
+				ok = false
+				return
+			}
+			mon, isMon := v.(VMon)
+			if !isMon {
+				ok = false
+				return
+			}
+			k := [2]string{a, mon.Asset}
+			if old, has := grants[k]; !has || mon.Amt.Cmp(old) > 0 {
+				grants[k] = mon.Amt
+			}
+		case *gen.SrcInorder:
+			for _, x := range s.Srcs {
+				walk(x)
+			}
+		case *gen.SrcCapped:
+			walk(s.From)
+		case *gen.SrcAllot:
+			for _, it := range s.Items {
+				walk(it.From)
+			}
+		}
+	}
+	for _, st := range p.Stmts {
+		if sd, isSend := st.(*gen.Send); isSend {
+			walk(sd.Src)
+		}
+	}
+	return
 }
